@@ -788,19 +788,43 @@ func FuzzC08Body(f *testing.F) {
 	dir, _ := os.MkdirTemp(os.Getenv("VERIF_FAST_SCRATCH"), "fuzz08-")
 	f.Cleanup(func() { os.RemoveAll(dir) })
 	sink := &countSink{}
-	d, err := db.Open(filepath.Join(dir, "db"), dbx.DummyKey(), audit.New(sink))
-	if err != nil {
-		f.Fatal(err)
-	}
 	su := dbx.Super()
 	marker := []byte("FUZZ-STORED-SECRET-MARKER")
-	d.Put(su.DB(), "a", marker)
-	d.Put(su.DB(), "a", []byte("second-version-marker"))
-	d.Put(su.DB(), "b", marker)
-	mux := http.NewServeMux()
-	server.New(context.Background(), server.Config{DB: d, Mux: mux, WhoIs: func(ctx context.Context, addr string) (*apitype.WhoIsResponse, error) {
-		return dbx.WhoIsOf(su), nil
-	}})
+	// Every iteration starts from the same stored state, so that a saved input fails again when it
+	// is run alone: the database is built once and built AGAIN whenever an iteration has changed it.
+	var d *db.DB
+	var mux *http.ServeMux
+	gen, canon := 0, ""
+	build := func() error {
+		gen++
+		var err error
+		d, err = db.Open(filepath.Join(dir, fmt.Sprintf("db-%d", gen)), dbx.DummyKey(), audit.New(sink))
+		if err != nil {
+			return err
+		}
+		d.Put(su.DB(), "a", marker)
+		d.Put(su.DB(), "a", []byte("second-version-marker"))
+		d.Put(su.DB(), "b", marker)
+		mux = http.NewServeMux()
+		server.New(context.Background(), server.Config{DB: d, Mux: mux, WhoIs: func(ctx context.Context, addr string) (*apitype.WhoIsResponse, error) {
+			return dbx.WhoIsOf(su), nil
+		}})
+		if gen > 1 {
+			os.Remove(filepath.Join(dir, fmt.Sprintf("db-%d", gen-1)))
+		}
+		st, err := dbx.Dump(d)
+		if err != nil {
+			return err
+		}
+		canon = st.Render(false)
+		sink.mu.Lock()
+		sink.lines = nil
+		sink.mu.Unlock()
+		return nil
+	}
+	if err := build(); err != nil {
+		f.Fatal(err)
+	}
 	f.Fuzz(func(t *testing.T, ep uint8, body []byte) {
 		endpoint := eps[int(ep)%len(eps)]
 		before, err := dbx.Dump(d)
@@ -838,6 +862,11 @@ func FuzzC08Body(f *testing.F) {
 			v = h.V("non-200-reply-carries-no-secret", "POST /api/%s %q: status %d body %q", endpoint, body, w.Code, w.Body.Bytes())
 		case w.Code != 200 && w.Code != 304 && before.Render(false) != after.Render(false):
 			v = h.V("failed-request-changes-nothing", "POST /api/%s %q answered %d but the state changed", endpoint, body, w.Code)
+		}
+		if derr != nil || after.Render(false) != canon {
+			if err := build(); err != nil {
+				t.Fatalf("rebuilding the database: %v", err)
+			}
 		}
 		if v != nil {
 			p := h.WriteFailure("C08", "fuzzbody", v, map[string]any{"endpoint": endpoint, "body": body})
